@@ -1,3 +1,774 @@
 package main
 
-func convMain(mode string, args []string) bool { return false }
+import (
+	"bufio"
+	"bytes"
+	"encoding/json"
+	"flag"
+	"fmt"
+	"math"
+	"math/rand"
+	"os"
+	"sort"
+	"strconv"
+	"strings"
+	"time"
+
+	"github.com/ohler55/ojg"
+	"github.com/ohler55/ojg/alt"
+	"github.com/ohler55/ojg/gen"
+	"github.com/ohler55/ojg/oj"
+	"github.com/ohler55/ojg/pretty"
+	"github.com/ohler55/ojg/sen"
+
+	"verif/harness/absval"
+)
+
+// ---------------------------------------------------------------------------------------------
+// C18: Build; op; Mutate; Observe behaviours on real data, and the writer / parser cross-checks.
+//
+// case lines (field "ev"):
+//   {"ev":"conv","op":..,"tree":typed,"muts":[{"side":"in"|"res","path":[1-based child positions],"kind":..}]}
+//   {"ev":"write","tree":typed simple tree}
+//   {"ev":"parse","text":"..."}
+// trace lines:
+//   conv : {"ev","op","in","in1","res","pan","muts":[{"side","path","kind","in","res","pan"}]}   (typed projections)
+//   write: {"ev","nodes":[{"g","outs":[{"w","s","x"}]}]}   every subtree, children before parents
+//   parse: {"ev","text","gerr","oerr","g","o"}
+// typed projection = absval (string atoms) + "g": the Go type of every node; float leaves also carry
+// "s32", the shortest text of the value rounded to float32.
+
+var keepOpt = &ojg.Options{OmitNil: false, TimeFormat: "time"} // keeps nulls and times (allowance B4)
+
+func typed(v any) any {
+	var m abs
+	switch t := v.(type) {
+	case []any:
+		a := make([]any, len(t))
+		for i, e := range t {
+			a[i] = typed(e)
+		}
+		return abs{"t": "arr", "g": "[]any", "v": a}
+	case gen.Array:
+		a := make([]any, len(t))
+		for i, e := range t {
+			a[i] = typedNode(e)
+		}
+		return abs{"t": "arr", "g": "gen.Array", "v": a}
+	case map[string]any:
+		keys := make([]string, 0, len(t))
+		for k := range t {
+			keys = append(keys, k)
+		}
+		sort.Strings(keys)
+		ks, vs := make([]any, len(keys)), make([]any, len(keys))
+		for i, k := range keys {
+			ks[i], vs[i] = k, typed(t[k])
+		}
+		return abs{"t": "obj", "g": "map[string]any", "k": ks, "v": vs}
+	case gen.Object:
+		keys := make([]string, 0, len(t))
+		for k := range t {
+			keys = append(keys, k)
+		}
+		sort.Strings(keys)
+		ks, vs := make([]any, len(keys)), make([]any, len(keys))
+		for i, k := range keys {
+			ks[i], vs[i] = k, typedNode(t[k])
+		}
+		return abs{"t": "obj", "g": "gen.Object", "k": ks, "v": vs}
+	case nil:
+		return abs{"t": "null", "g": "nil"}
+	default:
+		m, _ = absval.Atoms(v).(map[string]any)
+	}
+	m["g"] = fmt.Sprintf("%T", v)
+	if m["t"] == "flt" {
+		var f float64
+		switch t := v.(type) {
+		case float32:
+			f = float64(t)
+		case float64:
+			f = t
+		case gen.Float:
+			f = float64(t)
+		}
+		m["s32"] = strconv.FormatFloat(float64(float32(f)), 'g', -1, 32)
+	}
+	if m["t"] == "big" {
+		delete(m, "dec") // big numbers: the text is the value
+	}
+	return m
+}
+
+func typedNode(n gen.Node) any {
+	if n == nil {
+		return abs{"t": "null", "g": "nil"}
+	}
+	return typed(n)
+}
+
+// fromTyped builds the Go value a typed tree describes (Go type taken from "g").
+func fromTyped(v any) any {
+	m := v.(abs)
+	g, _ := m["g"].(string)
+	switch m["t"] {
+	case "null":
+		return nil
+	case "bool":
+		if g == "gen.Bool" {
+			return gen.Bool(m["v"].(bool))
+		}
+		return m["v"].(bool)
+	case "int":
+		i, u, big := absInt(m)
+		if big {
+			return u
+		}
+		switch g {
+		case "int":
+			return int(i)
+		case "int8":
+			return int8(i)
+		case "int16":
+			return int16(i)
+		case "int32":
+			return int32(i)
+		case "uint":
+			return uint(i)
+		case "uint8":
+			return uint8(i)
+		case "uint16":
+			return uint16(i)
+		case "uint32":
+			return uint32(i)
+		case "uint64":
+			return uint64(i)
+		case "gen.Int":
+			return gen.Int(i)
+		}
+		return i
+	case "flt":
+		f := absFloat(m)
+		switch g {
+		case "float32":
+			return float32(f)
+		case "gen.Float":
+			return gen.Float(f)
+		}
+		return f
+	case "str":
+		if g == "gen.String" {
+			return gen.String(m["v"].(string))
+		}
+		return m["v"].(string)
+	case "time":
+		var t time.Time
+		if ns, ok := m["nsec"]; ok { // generator form with nanoseconds
+			t = time.Unix(1700000000+num(m["sec"]), num(ns)).UTC()
+		} else {
+			t = absTime(m)
+		}
+		if g == "gen.Time" {
+			return gen.Time(t)
+		}
+		return t
+	case "big":
+		if g == "gen.Big" {
+			return gen.Big(m["text"].(string))
+		}
+		return json.Number(m["text"].(string))
+	case "arr":
+		l, _ := m["v"].([]any)
+		if g == "gen.Array" {
+			a := make(gen.Array, len(l))
+			for i, e := range l {
+				if x := fromTyped(e); x != nil {
+					a[i] = x.(gen.Node)
+				}
+			}
+			return a
+		}
+		a := make([]any, len(l))
+		for i, e := range l {
+			a[i] = fromTyped(e)
+		}
+		return a
+	case "obj":
+		ks, _ := m["k"].([]any)
+		vs, _ := m["v"].([]any)
+		if g == "gen.Object" {
+			o := make(gen.Object, len(ks))
+			for i, k := range ks {
+				if x := fromTyped(vs[i]); x != nil {
+					o[k.(string)] = x.(gen.Node)
+				} else {
+					o[k.(string)] = nil
+				}
+			}
+			return o
+		}
+		o := make(map[string]any, len(ks))
+		for i, k := range ks {
+			o[k.(string)] = fromTyped(vs[i])
+		}
+		return o
+	}
+	panic(fmt.Sprintf("unknown typed value %v", m))
+}
+
+func asNode(v any) gen.Node {
+	if v == nil {
+		return nil
+	}
+	return v.(gen.Node)
+}
+
+func nodeAny(n gen.Node) any {
+	if n == nil {
+		return nil
+	}
+	return n
+}
+
+// applyOp runs one operation of the property on in.
+func applyOp(op string, in any) any {
+	switch op {
+	case "alt.Generify":
+		return nodeAny(alt.Generify(in, keepOpt))
+	case "alt.GenAlter":
+		return nodeAny(alt.GenAlter(in, keepOpt))
+	case "gen.Simplify":
+		if n := asNode(in); n != nil {
+			return n.Simplify()
+		}
+		return nil
+	case "gen.Dup":
+		if n := asNode(in); n != nil {
+			return nodeAny(n.Dup())
+		}
+		return nil
+	case "gen.Alter":
+		if n := asNode(in); n != nil {
+			return n.Alter()
+		}
+		return nil
+	case "alt.Dup":
+		return alt.Dup(in, keepOpt)
+	case "alt.Decompose":
+		return alt.Decompose(in, keepOpt)
+	case "alt.Alter":
+		return alt.Alter(in, keepOpt)
+	case "Generify+Simplify":
+		return applyOp("gen.Simplify", applyOp("alt.Generify", in))
+	case "Generify+Alter":
+		return applyOp("gen.Alter", applyOp("alt.Generify", in))
+	case "GenAlter+Simplify":
+		return applyOp("gen.Simplify", applyOp("alt.GenAlter", in))
+	case "GenAlter+Alter":
+		return applyOp("gen.Alter", applyOp("alt.GenAlter", in))
+	}
+	panic("unknown op " + op)
+}
+
+var inPlace = map[string]bool{"alt.GenAlter": true, "gen.Alter": true, "alt.Alter": true, "Generify+Alter": true,
+	"GenAlter+Simplify": true, "GenAlter+Alter": true}
+
+const mutKey = "~"
+
+// mutate applies kind to the container under path (1-based child positions, object members in key
+// order) and returns the possibly new root (append makes a new slice header that is stored in the parent).
+func mutate(v any, path []int, kind string) any {
+	if len(path) > 0 {
+		j := path[0] - 1
+		switch t := v.(type) {
+		case []any:
+			t[j] = mutate(t[j], path[1:], kind)
+		case gen.Array:
+			t[j] = asNode(mutate(nodeAny(t[j]), path[1:], kind))
+		case map[string]any:
+			k := sortedKeys(len(t), func(f func(string)) {
+				for k := range t {
+					f(k)
+				}
+			})[j]
+			t[k] = mutate(t[k], path[1:], kind)
+		case gen.Object:
+			k := sortedKeys(len(t), func(f func(string)) {
+				for k := range t {
+					f(k)
+				}
+			})[j]
+			t[k] = asNode(mutate(nodeAny(t[k]), path[1:], kind))
+		default:
+			panic(fmt.Sprintf("mutation path leaves the containers at %T", v))
+		}
+		return v
+	}
+	switch t := v.(type) {
+	case []any:
+		if kind == "set0" {
+			t[0] = "MUT!"
+			return t
+		}
+		return append(t, "MUT!")
+	case gen.Array:
+		if kind == "set0" {
+			t[0] = gen.String("MUT!")
+			return t
+		}
+		return append(t, gen.String("MUT!"))
+	case map[string]any:
+		if kind == "setkey" {
+			t[mutKey] = "MUT!"
+		} else {
+			delete(t, sortedKeys(len(t), func(f func(string)) {
+				for k := range t {
+					f(k)
+				}
+			})[0])
+		}
+		return t
+	case gen.Object:
+		if kind == "setkey" {
+			t[mutKey] = gen.String("MUT!")
+		} else {
+			delete(t, sortedKeys(len(t), func(f func(string)) {
+				for k := range t {
+					f(k)
+				}
+			})[0])
+		}
+		return t
+	}
+	panic(fmt.Sprintf("mutation target is not a container: %T", v))
+}
+
+func sortedKeys(n int, each func(func(string))) []string {
+	keys := make([]string, 0, n)
+	each(func(k string) { keys = append(keys, k) })
+	sort.Strings(keys)
+	return keys
+}
+
+type mutSpec struct {
+	Side string `json:"side"`
+	Path []int  `json:"path"`
+	Kind string `json:"kind"`
+}
+
+type convCase struct {
+	Ev   string    `json:"ev"`
+	Op   string    `json:"op"`
+	Tree any       `json:"tree"`
+	Muts []mutSpec `json:"muts"`
+	Text string    `json:"text"`
+}
+
+func convOne(c convCase) (out abs) {
+	out = abs{"ev": "conv", "op": c.Op, "pan": false, "muts": []any{}}
+	defer func() {
+		if r := recover(); r != nil {
+			out["pan"] = true
+			out["msg"] = fmt.Sprint(r)
+			for _, k := range []string{"in", "in1", "res", "mid"} {
+				if out[k] == nil {
+					out[k] = abs{"t": "null", "g": "nil"}
+				}
+			}
+		}
+	}()
+	in := fromTyped(c.Tree)
+	out["in"] = typed(in)
+	var res any
+	if i := strings.Index(c.Op, "+"); i > 0 {
+		// a chain: log the intermediate gen tree so that each step is judged on its own
+		mid := applyOp("alt."+c.Op[:i], in)
+		out["mid"] = typed(mid)
+		res = applyOp("gen."+c.Op[i+1:], mid)
+	} else {
+		res = applyOp(c.Op, in)
+	}
+	out["res"] = typed(res)
+	if inPlace[c.Op] {
+		// the input of an in-place operation must not be looked at again: its memory now holds the
+		// other representation (gen.Array.Alter documents "no longer usable as the original type")
+		out["in1"] = out["res"]
+		return
+	}
+	out["in1"] = typed(in)
+	muts := []any{}
+	for _, m := range c.Muts {
+		mo := abs{"side": m.Side, "path": m.Path, "kind": m.Kind, "pan": false}
+		func() {
+			defer func() {
+				if r := recover(); r != nil {
+					mo["pan"] = true
+					mo["msg"] = fmt.Sprint(r)
+					mo["in"], mo["res"] = abs{"t": "null", "g": "nil"}, abs{"t": "null", "g": "nil"}
+				}
+			}()
+			in := fromTyped(c.Tree) // fresh heap for every experiment
+			res := applyOp(c.Op, in)
+			if m.Side == "in" {
+				in = mutate(in, m.Path, m.Kind)
+			} else {
+				res = mutate(res, m.Path, m.Kind)
+			}
+			mo["in"], mo["res"] = typed(in), typed(res)
+		}()
+		muts = append(muts, mo)
+	}
+	out["muts"] = muts
+	return
+}
+
+// ---- writer cross-check: every subtree of a simple tree against its gen equivalent (built directly) ----
+
+func genEquivalent(v any) any {
+	m := v.(abs)
+	c := abs{}
+	for k, x := range m {
+		c[k] = x
+	}
+	t, _ := m["t"].(string)
+	c["g"] = map[string]string{"int": "gen.Int", "flt": "gen.Float", "str": "gen.String", "bool": "gen.Bool", "time": "gen.Time",
+		"big": "gen.Big", "arr": "gen.Array", "obj": "gen.Object", "null": "nil"}[t]
+	if l, ok := m["v"].([]any); ok && (t == "arr" || t == "obj") {
+		nl := make([]any, len(l))
+		for i, e := range l {
+			nl[i] = genEquivalent(e)
+		}
+		c["v"] = nl
+	}
+	return c
+}
+
+func writeOne(c convCase) abs {
+	nodes := []any{}
+	var walk func(v any)
+	walk = func(v any) {
+		m := v.(abs)
+		if t := m["t"]; t == "arr" || t == "obj" {
+			for _, e := range m["v"].([]any) {
+				walk(e)
+			}
+		}
+		s := fromTyped(typedOf(v))
+		x := fromTyped(genEquivalent(typedOf(v)))
+		outs := []any{}
+		for _, w := range []struct {
+			name string
+			f    func(any) string
+		}{
+			{"oj.JSON", func(d any) string { return oj.JSON(d, &ojg.Options{Sort: true}) }},
+			{"sen.String", func(d any) string { return sen.String(d, &ojg.Options{Sort: true}) }},
+			{"pretty.JSON", func(d any) string { return pretty.JSON(d, &ojg.Options{Sort: true}) }},
+		} {
+			outs = append(outs, abs{"w": w.name, "s": safeCall(w.f, s), "x": safeCall(w.f, x)})
+		}
+		nodes = append(nodes, abs{"g": fmt.Sprintf("%T", s), "outs": outs})
+	}
+	walk(widen32(c.Tree))
+	return abs{"ev": "write", "nodes": nodes}
+}
+
+func typedOf(v any) any { return v }
+
+// widen32 replaces float32 leaves by the float64 of the same value: the simple equivalent of a gen tree
+// (Simplify) has float64 only, and the writers deliberately print a float32 with 32-bit precision.
+func widen32(v any) any {
+	m := v.(abs)
+	c := abs{}
+	for k, x := range m {
+		c[k] = x
+	}
+	if m["t"] == "flt" && m["g"] == "float32" {
+		c["g"] = "float64"
+	}
+	if l, ok := m["v"].([]any); ok && (m["t"] == "arr" || m["t"] == "obj") {
+		nl := make([]any, len(l))
+		for i, e := range l {
+			nl[i] = widen32(e)
+		}
+		c["v"] = nl
+	}
+	return c
+}
+
+func safeCall(f func(any) string, d any) (s string) {
+	defer func() {
+		if r := recover(); r != nil {
+			s = "PANIC: " + fmt.Sprint(r)
+		}
+	}()
+	return f(d)
+}
+
+// ---- parser cross-check ----
+
+func parseOne(c convCase) abs {
+	out := abs{"ev": "parse", "text": c.Text, "gerr": false, "oerr": false, "g": abs{"t": "null", "g": "nil"}, "o": abs{"t": "null", "g": "nil"}}
+	func() {
+		defer func() {
+			if r := recover(); r != nil {
+				out["gerr"] = true
+			}
+		}()
+		p := gen.Parser{}
+		n, err := p.Parse([]byte(c.Text))
+		if err != nil {
+			out["gerr"] = true
+			return
+		}
+		out["g"] = typedNode(n)
+	}()
+	func() {
+		defer func() {
+			if r := recover(); r != nil {
+				out["oerr"] = true
+			}
+		}()
+		p := oj.Parser{}
+		v, err := p.Parse([]byte(c.Text))
+		if err != nil {
+			out["oerr"] = true
+			return
+		}
+		out["o"] = typedNode(alt.Generify(v, keepOpt))
+	}()
+	return out
+}
+
+func convExec(args []string) {
+	in := bufio.NewReaderSize(os.Stdin, 1<<20)
+	w := bufio.NewWriterSize(os.Stdout, 1<<20)
+	defer w.Flush()
+	enc := json.NewEncoder(w)
+	enc.SetEscapeHTML(false)
+	for {
+		line, err := in.ReadBytes('\n')
+		if len(bytes.TrimSpace(line)) > 0 {
+			var c convCase
+			d := json.NewDecoder(bytes.NewReader(line))
+			d.UseNumber()
+			if e := d.Decode(&c); e != nil {
+				fmt.Fprintln(os.Stderr, "bad case line:", e)
+				os.Exit(2)
+			}
+			var out abs
+			switch c.Ev {
+			case "write":
+				out = writeOne(c)
+			case "parse":
+				out = parseOne(c)
+			default:
+				out = convOne(c)
+			}
+			if e := enc.Encode(out); e != nil {
+				panic(e)
+			}
+		}
+		if err != nil {
+			break
+		}
+	}
+}
+
+// ---------------------------------------------------------------------------------------------
+// seeded random cases
+
+type cgen struct{ r *rand.Rand }
+
+var ckeys = []string{"a", "b", "c", "k1", "Z", "0", "x_y"}
+
+func (g *cgen) leaf() abs {
+	pick := func(vals ...int64) int64 { return vals[g.r.Intn(len(vals))] }
+	bigv := func(i int64, gt string) abs {
+		m := absval.Atoms(i).(map[string]any)
+		m["g"] = gt
+		return m
+	}
+	switch g.r.Intn(17) {
+	case 0:
+		return abs{"t": "null", "g": "nil"}
+	case 1:
+		return abs{"t": "bool", "v": g.r.Intn(2) == 0, "g": "bool"}
+	case 2:
+		return bigv(pick(0, 1, -1, math.MaxInt32, math.MinInt32, 12345), "int")
+	case 3:
+		return bigv(pick(0, math.MaxInt8, math.MinInt8, -7), "int8")
+	case 4:
+		return bigv(pick(0, math.MaxInt16, math.MinInt16), "int16")
+	case 5:
+		return bigv(pick(0, math.MaxInt32, math.MinInt32), "int32")
+	case 6:
+		return bigv(pick(0, math.MaxInt64, math.MinInt64, 1<<53+1), "int64")
+	case 7:
+		return bigv(pick(0, math.MaxUint8, 200), "uint8")
+	case 8:
+		return bigv(pick(0, math.MaxUint16), "uint16")
+	case 9:
+		return bigv(pick(0, math.MaxUint32), "uint32")
+	case 10:
+		return bigv(pick(0, math.MaxInt64, 77), []string{"uint", "uint64"}[g.r.Intn(2)])
+	case 11:
+		f := []float64{0, 1.5, -2.25, 0.1, 1e300, 5e-324, 123456.789, float64(1<<53) + 2}[g.r.Intn(8)]
+		return abs{"t": "flt", "s": strconv.FormatFloat(f, 'g', -1, 64), "g": "float64"}
+	case 12:
+		f := []float32{0, 0.5, 0.1, 1.0000001, 3.4e38, 16777217, -1.1}[g.r.Intn(7)]
+		return abs{"t": "flt", "s": strconv.FormatFloat(float64(f), 'g', -1, 64), "g": "float32"}
+	case 13:
+		return abs{"t": "str", "v": []string{"", "x", "a b", "null", "1", "q\"uote", "tab\there"}[g.r.Intn(7)], "g": "string"}
+	case 14:
+		return abs{"t": "time", "sec": g.r.Intn(100000), "nsec": pick(0, 1, 999999999, 500), "g": "time.Time"}
+	case 15:
+		return abs{"t": "big", "text": []string{"123456789012345678901234567890", "1e400", "-0.00000000000000000000000000012345678901234567890"}[g.r.Intn(3)], "g": "json.Number"}
+	}
+	return bigv(int64(g.r.Intn(100)), "int64")
+}
+
+func (g *cgen) tree(depth int) abs {
+	if depth <= 0 || g.r.Intn(3) == 0 {
+		return g.leaf()
+	}
+	n := g.r.Intn(4)
+	if g.r.Intn(2) == 0 {
+		e := make([]any, n)
+		for i := range e {
+			e[i] = g.tree(depth - 1)
+		}
+		return abs{"t": "arr", "g": "[]any", "v": e}
+	}
+	m := map[string]any{}
+	for i := 0; i < n; i++ {
+		m[ckeys[g.r.Intn(len(ckeys))]] = g.tree(depth - 1)
+	}
+	o := aObj(m)
+	o["g"] = "map[string]any"
+	return o
+}
+
+func contPaths(v abs, p []int, out *[][]int, kinds *[][]string) {
+	t := v["t"]
+	if t != "arr" && t != "obj" {
+		return
+	}
+	l, _ := v["v"].([]any)
+	*out = append(*out, append([]int{}, p...))
+	ks := []string{"append"}
+	if t == "obj" {
+		ks = []string{"setkey"}
+	}
+	if len(l) > 0 {
+		if t == "arr" {
+			ks = append(ks, "set0")
+		} else {
+			ks = append(ks, "delkey")
+		}
+	}
+	*kinds = append(*kinds, ks)
+	for i, e := range l {
+		contPaths(e.(abs), append(p, i+1), out, kinds)
+	}
+}
+
+var simpleOps = []string{"alt.Generify", "alt.Dup", "alt.Decompose", "Generify+Simplify", "alt.GenAlter", "alt.Alter", "Generify+Alter",
+	"GenAlter+Simplify", "GenAlter+Alter"}
+var genOps = []string{"gen.Simplify", "gen.Dup", "gen.Alter"}
+
+func (g *cgen) jsonText(depth int) string {
+	nums := []string{"0", "-0", "1", "-1", "1.0", "-0.0", "1.5", "1e2", "1E2", "1e-2", "1.0e0", "100000000000000000000", "9223372036854775807",
+		"9223372036854775808", "-9223372036854775808", "0.1", "123456789.123456789", "1e400", "1.7976931348623157e308", "5e-324", "0.000001",
+		"12345678901234567890.5", "1.00", "10e0", "2.50"}
+	strs := []string{`""`, `"x"`, `"a b"`, `"\n"`, `"A"`, `"q\"q"`, `"\\"`, `"/"`}
+	if depth <= 0 || g.r.Intn(3) == 0 {
+		switch g.r.Intn(6) {
+		case 0:
+			return "null"
+		case 1:
+			return []string{"true", "false"}[g.r.Intn(2)]
+		case 2:
+			return strs[g.r.Intn(len(strs))]
+		default:
+			return nums[g.r.Intn(len(nums))]
+		}
+	}
+	n := g.r.Intn(4)
+	var b bytes.Buffer
+	if g.r.Intn(2) == 0 {
+		b.WriteString("[")
+		for i := 0; i < n; i++ {
+			if i > 0 {
+				b.WriteString([]string{",", ", ", " ,\n"}[g.r.Intn(3)])
+			}
+			b.WriteString(g.jsonText(depth - 1))
+		}
+		b.WriteString("]")
+	} else {
+		b.WriteString("{")
+		used := map[string]bool{}
+		first := true
+		for i := 0; i < n; i++ {
+			k := ckeys[g.r.Intn(len(ckeys))]
+			if used[k] {
+				continue
+			}
+			used[k] = true
+			if !first {
+				b.WriteString(",")
+			}
+			first = false
+			b.WriteString(strconv.Quote(k) + []string{":", ": "}[g.r.Intn(2)] + g.jsonText(depth-1))
+		}
+		b.WriteString("}")
+	}
+	return b.String()
+}
+
+func convRand(args []string) {
+	fs := flag.NewFlagSet("convrand", flag.ExitOnError)
+	n := fs.Int("n", 1000, "number of random conversion cases (the same number of writer and parser cases is added)")
+	fs.Parse(args)
+	seed, _ := strconv.ParseInt(os.Getenv("VERIF_SEED"), 10, 64)
+	g := &cgen{r: rand.New(rand.NewSource(seed*104729 + 5))}
+	w := bufio.NewWriterSize(os.Stdout, 1<<20)
+	defer w.Flush()
+	enc := json.NewEncoder(w)
+	enc.SetEscapeHTML(false)
+	for i := 0; i < *n; i++ {
+		tr := g.tree(1 + g.r.Intn(3))
+		var op string
+		if g.r.Intn(4) == 0 {
+			op = genOps[g.r.Intn(len(genOps))]
+			tr = genEquivalent(tr).(abs)
+		} else {
+			op = simpleOps[g.r.Intn(len(simpleOps))]
+		}
+		var paths [][]int
+		var kinds [][]string
+		contPaths(tr, nil, &paths, &kinds)
+		muts := []any{}
+		if !inPlace[op] {
+			for k := 0; k < 4 && len(paths) > 0; k++ {
+				j := g.r.Intn(len(paths))
+				muts = append(muts, abs{"side": []string{"in", "res"}[g.r.Intn(2)], "path": paths[j], "kind": kinds[j][g.r.Intn(len(kinds[j]))]})
+			}
+		}
+		enc.Encode(abs{"ev": "conv", "op": op, "tree": tr, "muts": muts})
+		enc.Encode(abs{"ev": "write", "tree": g.tree(1 + g.r.Intn(3))})
+		enc.Encode(abs{"ev": "parse", "text": g.jsonText(1 + g.r.Intn(3))})
+	}
+}
+
+func convMain(mode string, args []string) bool {
+	switch mode {
+	case "convexec":
+		convExec(args)
+	case "convrand":
+		convRand(args)
+	default:
+		return false
+	}
+	return true
+}
